@@ -599,10 +599,11 @@ pub fn minimise<W: World>(world: &Arc<W>, case: &W::Case, v: &Violation, known: 
             tried += 1;
             let needs_isolation = world.crash_isolated() && (cur_v.kind == "process_death" || cur_v.kind == "hang");
             let violation = if needs_isolation {
-                if tried > 250 {
+                // every candidate costs a process (and, for hangs, a time-out): keep the search short
+                if tried > (if cur_v.kind == "hang" { 24 } else { 250 }) {
                     break 'outer;
                 }
-                match run_case_isolated(world, &c, if cur_v.kind == "hang" { 60 } else { 20 }) {
+                match run_case_isolated(world, &c, if cur_v.kind == "hang" { 12 } else { 20 }) {
                     Isolated::Finished(v) => v,
                     Isolated::Died(st) => Some(Violation::new("process_death", format!("worker process died: {st}"), 0, "a result or an error value", format!("the process executing the case ended with {st}"))),
                     Isolated::TimedOut => Some(Violation::new("hang", "no result within the limit, alone in a fresh process", 0, "termination", "still running")),
